@@ -99,3 +99,24 @@ func VerifC17Diatonic() {
 	vf.Assert("has-the-quality-of-the-harmonisation", same)
 	vf.Reach("end")
 }
+
+// VerifC13Describe: what `info key describe` reports for a key — after the whole report has
+// been assembled — is that key's scale: each letter once from the tonic, the conventional
+// signature, the altered notes the first n of the order of sharps / flats.
+func VerifC13Describe() {
+	key, kl, ka, kminor := crdx.SupportedKey("k")
+	scale, err := op.NewScale(key)
+	vf.Assume(err == nil)
+	info := NewKey().Describe(scale)
+	sig := spec.Signature(kl, ka, kminor)
+	vf.Assert("described-scale-is-present", info.Scale != nil)
+	if info.Scale == nil {
+		return
+	}
+	for i := 0; i < 7; i++ {
+		n := info.Scale.Notes[i]
+		vf.Assert("described-scale-has-its-own-notes", n != nil && crdx.Letter(n.Name) == (kl+i)%7 && crdx.AccNum(n.Accidental) == spec.AccidentalInKey((kl+i)%7, sig))
+	}
+	vf.Assert("described-signature", info.Scale.Sharp == vf.Ite(sig > 0, sig, 0) && info.Scale.Flat == vf.Ite(sig < 0, -sig, 0) && info.Scale.Key == key)
+	vf.Reach("end")
+}
